@@ -522,6 +522,11 @@ fn check_type_relation<T: TypeLookup>(
                 receive: receive2,
             },
         ) => {
+            // A function type is a recursion boundary like a union: record the coinductive
+            // hypothesis so a back-reference that returns to this same pair terminates at the
+            // assumption check above instead of recursing without bound.
+            assumptions.insert(key);
+
             let already_on_stack = type_stack.contains(&pattern_id);
             if !already_on_stack {
                 type_stack.push(pattern_id);
